@@ -153,6 +153,14 @@ CLAIMED['C17'] = dict(
          'unescape_c positional mapping, unescape_u/x digit range and result width.',
     ref='5/C17')
 
+CLAIMED['C16'] = dict(
+    technique='abstract execution of raw_string::match (helper rules and the input\'s end-of-line rule inlined) on all strings over byte classes up to a length bound, against a reference long-bracket scanner; content span from traced rule entry and closing bump',
+    text='For the five end-of-line policies, default and custom bracket characters, with and without content sub-rules: result, consumed length, local failure without consumption, and the span on which the content rule '
+         '(hence its action, by C04) runs - the text between the brackets without one line ending of the input\'s policy after the opening bracket. Bytes are partitioned into Open/Marker/Close/line-ending bytes/other after verifying that '
+         'the code only tests bytes for equality with these, so each class string stands for all concrete strings of that shape. Bounded: plain variant to length 6 (quick) / 8 (thorough), other variants 4 / 6; '
+         'the counting language itself is not decided for unbounded length.',
+    ref='5/C16')
+
 NOT_YET = 'check not built yet in this round (see DESIGN.md section 10 for the order of construction); no claim is made'
 
 NA_REASONS = {}
